@@ -242,7 +242,7 @@ func runWire(sc scenario) *result {
 
 	var peer *wire.Peer
 	var cleanup func()
-	var wg sync.WaitGroup
+	var wg msgfix.Group // not sync.WaitGroup: see msgfix.Group
 	var id uint32
 	if sc.Role == "server" {
 		sopts := []grpc.ServerOption{grpc.InitialWindowSize(window), grpc.InitialConnWindowSize(window)}
@@ -253,7 +253,7 @@ func runWire(sc scenario) *result {
 			sopts = append(sopts, grpc.RPCDecompressor(dc))
 		}
 		handler := func(_ any, ss grpc.ServerStream) error {
-			wg.Add(1)
+			wg.Add()
 			defer wg.Done()
 			err := app.loop(func(m *[]byte) error { return ss.RecvMsg(m) })
 			if err == io.EOF {
@@ -295,7 +295,7 @@ func runWire(sc scenario) *result {
 			return res
 		}
 		ctx, cancel := context.WithCancel(context.Background())
-		wg.Add(1)
+		wg.Add()
 		go func() {
 			defer wg.Done()
 			st, err := fx.CC.NewStream(ctx, &grpc.StreamDesc{ClientStreams: true, ServerStreams: true}, "/verif.Framing/Recv")
@@ -779,11 +779,11 @@ func div() int {
 
 func TestVerifC06(t *testing.T) {
 	r := vlib.Start(t, "C06")
-	runFam(t, r, "seg", r.N(700, 14000)/div(), genSeg)
-	runFam(t, r, "hostile", r.N(960, 19200)/div(), genHostile)
-	runFam(t, r, "bomb", r.N(160, 3200)/div(), genBomb)
-	runFam(t, r, "gzbomb", r.N(12, 120)/div(), genGzBomb)
-	runE2E(t, r, r.N(200, 4000)/div())
+	runFam(t, r, "seg", r.N(700, 7000)/div(), genSeg)
+	runFam(t, r, "hostile", r.N(960, 9600)/div(), genHostile)
+	runFam(t, r, "bomb", r.N(160, 1600)/div(), genBomb)
+	runFam(t, r, "gzbomb", r.N(12, 60)/div(), genGzBomb)
+	runE2E(t, r, r.N(200, 2000)/div())
 	r.Finish(vlib.Spec{
 		Level: "exploration",
 		Rule: "E1: a scripted HTTP/2 peer sends a byte stream to a real server handler / real client application (receive limit in {0,1,4,5,6,100,1000,16384,65535,100000, default 4MB}; 12 grpc-encoding x decompressor configurations: absent, identity, registered gzip / vz-a / vz-b, legacy gzip, legacy custom, legacy shadowing a registered one, unknown, mismatching legacy) segmented into DATA frames of 0..16384 bytes (1-6 byte frames in mode tiny) with optional padding. Families: seg = valid messages of sizes {0,1,limit-1,limit,random} plain or compressed plus optionally one of size limit+1 (plain or highly compressible); hostile = one of {declared>actual, declared<actual, declared in {limit+1,2^31-1,2^31,2^32-1}, flag byte in {2,3,0x80,0x81,0xfe,0xff}, compressed flag on any encoding, compressed flag on empty payload, corrupt compressed payload, stream cut 1..45 bytes short, limit+1 plain, limit+1 inflated} between valid messages; bomb = 12-byte vz payload declaring limit+1..2^62 bytes; gzbomb = 64KB gzip inflating to 64MB; e2e = real client <-> real server echo with 0-6 messages around both limits and compressor in {none, gzip, vz-a, legacy gzip, legacy custom}. Oracle = msgfix.Reference (independent parser of the length-prefixed stream): delivered messages equal the acceptable prefix byte for byte, oversize (declared or inflated) => RESOURCE_EXHAUSTED, truncated body / unknown flag / corrupt => error, compressed flag with identity => INTERNAL, without decompressor => INTERNAL (client) / UNIMPLEMENTED (server), bytes drawn from a library-driven decompressor <= limit+1, TotalAlloc delta of a gzip bomb <= 8*limit+24MB. non-trivial = the case reached its judged end; distinct = (role, encoding+legacy, reference end, boundary class: delivered-at-limit / declared-limit+1 / inflated-limit+1 / ...)",
